@@ -83,6 +83,7 @@ CATALOGUE = {
     "banana5": [(0, 1), (0, 1), (0, 1), (0, 1), (0, 1)],
     "ladder3x": [(0, 1), (1, 2), (2, 3), (4, 5), (5, 6), (6, 7), (0, 4), (1, 5), (2, 6), (3, 7)],   # rails + 4 rungs, 3 loops
     "bubble_chain3": [(0, 1), (0, 1), (1, 2), (1, 2), (2, 3), (2, 3)],
+    "hexagon_doubled": [(0, 1), (0, 1), (1, 2), (2, 3), (3, 4), (4, 5), (5, 0)],
     "sunrise_tadpole": [(0, 1), (0, 1), (0, 1), (1, 1)],
 }
 
